@@ -1060,13 +1060,16 @@ pub struct PairSpec {
     /// the peer received the requester's fork FIRST (it was its longest chain) and reorganised onto its own longer fork
     /// later: at the heights of the requester's fork its index holds the requester's block first, its own block second
     pub peer_saw_requester_fork: bool,
+    /// (with `handshake`, requester merely behind) the nodes first meet while the peer still holds only the requester's
+    /// chain; the connection drops, the peer's chain grows to its full length, the same peer connects again
+    pub reconnect: bool,
 }
 
 impl PairSpec {
     fn describe(&self) -> String {
         format!(
-            "shared={} a_empty={} sa={} sb={} dt_a={} dt_b={} ld={} batch={} mode={:?} fifo={} handshake={} collision_pair={} peer_saw_requester_fork={}",
-            self.shared, self.a_empty as u8, self.sa, self.sb, self.dt_a, self.dt_b, self.ld as u8, self.batch, self.mode, self.fifo as u8, self.handshake as u8, self.collision as u8, self.peer_saw_requester_fork as u8
+            "shared={} a_empty={} sa={} sb={} dt_a={} dt_b={} ld={} batch={} mode={:?} fifo={} handshake={} collision_pair={} peer_saw_requester_fork={} reconnect={}",
+            self.shared, self.a_empty as u8, self.sa, self.sb, self.dt_a, self.dt_b, self.ld as u8, self.batch, self.mode, self.fifo as u8, self.handshake as u8, self.collision as u8, self.peer_saw_requester_fork as u8, self.reconnect as u8
         )
     }
 }
@@ -1075,7 +1078,7 @@ pub fn pair_cases(seed: u64, tier: &str) -> Vec<PairSpec> {
     let thorough = tier == "thorough";
     let mut r = Rng::new(seed ^ 0xC15);
     let mut v = vec![];
-    let base = PairSpec { shared: 0, a_empty: false, sa: 0, sb: 2, dt_a: 400, dt_b: 300, ld: false, batch: 10, mode: Mode::Eager, fifo: true, handshake: false, exhaustive: true, max_runs: 400, collision: false, build_seed: None, schedule: None, peer_saw_requester_fork: false };
+    let base = PairSpec { shared: 0, a_empty: false, sa: 0, sb: 2, dt_a: 400, dt_b: 300, ld: false, batch: 10, mode: Mode::Eager, fifo: true, handshake: false, exhaustive: true, max_runs: 400, collision: false, build_seed: None, schedule: None, peer_saw_requester_fork: false, reconnect: false };
     if std::env::var("C15_EXPLORE_CASES").is_ok() {
         // debugging aid (not used by ./check): small forked pairs, random schedules, to look for witnesses of a stall
         for shared in 0..6usize {
@@ -1167,7 +1170,12 @@ pub fn pair_cases(seed: u64, tier: &str) -> Vec<PairSpec> {
             build_seed: None,
             schedule: None,
             peer_saw_requester_fork: sa > 0 && k % 3 == 0,
+            reconnect: false,
         });
+    }
+    // the same peer met twice: the requester is merely behind, the peer grows while the connection is down
+    for (shared, sb, batch, fifo, mode) in [(0usize, 3usize, 10usize, true, Mode::Eager), (2, 5, 10, true, Mode::Full), (4, 12, 2, true, Mode::Eager), (1, 7, 1, false, Mode::Eager), (3, 4, 10, false, Mode::Full)] {
+        v.push(PairSpec { shared, sa: 0, sb, batch, fifo, mode, handshake: true, reconnect: true, exhaustive: false, max_runs: 2, ..base.clone() });
     }
     v
 }
@@ -1253,9 +1261,15 @@ pub async fn run_schedule(s: &PairSpec, bp: &BuiltPair, ids: &mut Ids, prefix: &
     let mut a = PNode::new("a", 11, cfg_a, s.batch);
     let mut b = PNode::new("b", 12, cfg_b, s.batch);
     a.preload(&bp.a_chain).await?;
-    b.preload(&bp.b_history).await?;
-    if b.tip().await.map(|t| t.1) != bp.b_chain.last().map(|x| x.hash) {
-        return Err("the peer is not on its own chain after loading its history".into());
+    let two_phase = s.reconnect && s.handshake && s.sa == 0 && !s.a_empty && !s.peer_saw_requester_fork && !s.collision;
+    if two_phase {
+        // first meeting: the peer holds what the requester holds
+        b.preload(&bp.a_chain).await?;
+    } else {
+        b.preload(&bp.b_history).await?;
+        if b.tip().await.map(|t| t.1) != bp.b_chain.last().map(|x| x.hash) {
+            return Err("the peer is not on its own chain after loading its history".into());
+        }
     }
     let (apk, bpk) = (a.pk, b.pk);
     if s.handshake {
@@ -1279,6 +1293,42 @@ pub async fn run_schedule(s: &PairSpec, bp: &BuiltPair, ids: &mut Ids, prefix: &
             }
         }
         w.flush_wires();
+        if two_phase {
+            // the first exchange runs to quiescence (leftmost choices), the connection drops on both sides, the peer's chain
+            // grows, the same peer connects again: the second handshake must start the exchange again
+            w.settle(ids, emit).await;
+            let mut guard = 0;
+            loop {
+                let alts = w.alternatives();
+                if alts.is_empty() || guard > 2000 {
+                    break;
+                }
+                guard += 1;
+                w.run(alts[0].clone(), ids, emit).await;
+                w.settle(ids, emit).await;
+            }
+            for i in 0..2 {
+                let r = guarded_async(w.nodes[i].routing.process_network_event(NetworkEvent::PeerDisconnected { peer_index: PEER, disconnect_type: saito_core::core::io::network::PeerDisconnectType::ExternalDisconnect })).await;
+                if let Err(e) = r {
+                    w.nodes[i].dead = Some(e);
+                }
+            }
+            w.flush_wires();
+            w.settle(ids, emit).await;
+            let rest: Vec<Block> = bp.b_history.iter().filter(|x| !bp.a_chain.iter().any(|y| y.hash == x.hash)).cloned().collect();
+            w.nodes[1].preload(&rest).await?;
+            if w.nodes[1].tip().await.map(|t| t.1) != bp.b_chain.last().map(|x| x.hash) {
+                return Err("the peer is not on its own chain after growing".into());
+            }
+            w.log.push("reconnect: connection dropped, peer grew, same peer connects again".into());
+            for i in 0..2 {
+                let r = guarded_async(w.nodes[i].routing.process_network_event(NetworkEvent::PeerConnectionResult { result: Ok((PEER, None)) })).await;
+                if let Err(e) = r {
+                    w.nodes[i].dead = Some(e);
+                }
+            }
+            w.flush_wires();
+        }
     } else {
         // the requester asks for the peer's chain (what the end of the handshake does: routing_thread.rs:910)
         w.nodes[0].q_router.push_back(RoutingEvent::BlockchainRequest(PEER));
@@ -1491,7 +1541,7 @@ pub async fn run_pair_case(seed: u64, ci: usize, s: &PairSpec, resume: Option<(u
 /// `harness forkid-explore`: search pairs/schedules for a handler panic (debugging aid, not part of ./check)
 pub fn explore() {
     let rt = rt();
-    let base = PairSpec { shared: 0, a_empty: false, sa: 0, sb: 2, dt_a: 400, dt_b: 300, ld: false, batch: 10, mode: Mode::Eager, fifo: true, handshake: false, exhaustive: false, max_runs: 1, collision: false, build_seed: None, schedule: None, peer_saw_requester_fork: false };
+    let base = PairSpec { shared: 0, a_empty: false, sa: 0, sb: 2, dt_a: 400, dt_b: 300, ld: false, batch: 10, mode: Mode::Eager, fifo: true, handshake: false, exhaustive: false, max_runs: 1, collision: false, build_seed: None, schedule: None, peer_saw_requester_fork: false, reconnect: false };
     let mut best: Option<(usize, String)> = None;
     for shared in [0usize, 1, 2, 3, 5] {
         for sa in 0..5usize {
